@@ -1,13 +1,16 @@
 """Scheduler family (C01-C07): Sched.tla / SchedPreds.tla / SchedTrace.tla."""
+import concurrent.futures
+import fcntl
+import hashlib
 import json
 import os
-import concurrent.futures
 
 from lib import vlib
 
 DEPS = ["SchedPreds.tla"]
 TRACE = "SchedTrace.tla"
 CFG = "Trace_Sched.cfg"
+CACHE = os.path.join(vlib.VERIF, ".cache")
 
 
 def split_file(path, chunks):
@@ -26,34 +29,96 @@ def split_file(path, chunks):
     return out
 
 
-def validate_parallel(ctx, path, label, chunks=8, timeout=1800):
+def validate_parallel(ctx, path, label, chunks=8, timeout=1800, classify=None):
     parts = split_file(path, chunks)
     with concurrent.futures.ThreadPoolExecutor(max_workers=len(parts)) as ex:
         futs = [ex.submit(vlib.validate_traces, ctx, p, TRACE, CFG, DEPS, "%s_%d" % (label, i),
-                          timeout, 6, vlib.classify_for(ctx.prop))
+                          timeout, 6, classify or vlib.classify_for(ctx.prop))
                 for i, p in enumerate(parts)]
         for f in futs:
             f.result()
 
 
+def _key(binary, seed, tier):
+    h = hashlib.sha256()
+    for p in [binary] + [os.path.join(vlib.SPECS, n) for n in DEPS + [TRACE, CFG]] + [__file__, vlib.__file__]:
+        h.update(open(p, "rb").read())
+    h.update(("%s|%s|%s" % (seed, tier, vlib.REPO)).encode())
+    return h.hexdigest()[:24]
+
+
+def _run_all(ctx0, binary):
+    """Run the drivers and validate their traces once for the whole family;
+    every non-ok verdict is recorded with its reason (property prefix)."""
+    ctx = vlib.Ctx("SCHED", ctx0.tier, ctx0.seed)
+    try:
+        n = 60 if ctx.quick() else 600
+        steps = 70 if ctx.quick() else 90
+        out = ctx.sub("rand")
+        rc, o = vlib.run_driver(binary, "TestRandom", out, ctx.seed, env={"VERIF_N": n, "VERIF_STEPS": steps}, timeout=1500)
+        if rc != 0:
+            raise vlib.Infra("sched random driver failed:\n" + o[-3000:])
+        everything = lambda reason, inv, failing, lines: "violation"  # noqa: E731
+        validate_parallel(ctx, out + "/trace.ndjson", "random", chunks=6 if ctx.quick() else 12, classify=everything)
+        samples = []
+        for ln in vlib.read_lines(out + "/trace.ndjson")[2:6]:
+            e = json.loads(ln)
+            if "s" in e:
+                e["s"] = "(snapshot elided)"
+            samples.append(e)
+        out2 = ctx.sub("scen")
+        rc, o = vlib.run_driver(binary, "TestScenarios", out2, ctx.seed, timeout=600)
+        if rc != 0:
+            raise vlib.Infra("sched scenario driver failed:\n" + o[-3000:])
+        validate_parallel(ctx, out2 + "/trace.ndjson", "scenarios", chunks=3, classify=everything)
+        out3 = ctx.sub("fair")
+        rc, o = vlib.run_driver(binary, "TestFairness", out3, ctx.seed, env={"VERIF_N": 30 if ctx.quick() else 400}, timeout=1500)
+        if rc != 0:
+            raise vlib.Infra("sched fairness driver failed:\n" + o[-3000:])
+        validate_parallel(ctx, out3 + "/trace.ndjson", "fair", chunks=4 if ctx.quick() else 12, classify=everything)
+        ctx.cov["samples"] = samples
+        return {"violations": ctx.violations, "cov": ctx.cov}
+    finally:
+        ctx.cleanup()
+
+
 def run_parts(ctx):
     binary = vlib.go_build_test(ctx, "sched")
-    n = 60 if ctx.quick() else 600
-    steps = 70 if ctx.quick() else 90
-    out = ctx.sub("rand")
-    rc, o = vlib.run_driver(binary, "TestRandom", out, ctx.seed, env={"VERIF_N": n, "VERIF_STEPS": steps}, timeout=1500)
-    if rc != 0:
-        raise vlib.Infra("sched random driver failed:\n" + o[-3000:])
-    validate_parallel(ctx, out + "/trace.ndjson", "random", chunks=12 if ctx.quick() else 16)
-    out2 = ctx.sub("scen")
-    rc, o = vlib.run_driver(binary, "TestScenarios", out2, ctx.seed, timeout=600)
-    if rc != 0:
-        raise vlib.Infra("sched scenario driver failed:\n" + o[-3000:])
-    validate_parallel(ctx, out2 + "/trace.ndjson", "scenarios", chunks=3)
-    ctx.cov["samples"] += [json.loads(ln) for ln in vlib.read_lines(out + "/trace.ndjson")[2:5]]
-    for s in ctx.cov["samples"]:
-        if isinstance(s, dict) and "s" in s:
-            s["s"] = "(snapshot elided)"
+    key = _key(binary, ctx.seed, ctx.tier)
+    os.makedirs(CACHE, exist_ok=True)
+    cpath = os.path.join(CACHE, "sched_%s.json" % key)
+    with open(cpath + ".lock", "w") as lk:
+        fcntl.flock(lk, fcntl.LOCK_EX)
+        res = None
+        if os.path.exists(cpath):
+            try:
+                res = json.load(open(cpath))
+                if not all(os.path.exists(v["replay"]) for v in res["violations"]):
+                    res = None
+            except Exception:
+                res = None
+        if res is None:
+            res = _run_all(ctx, binary)
+            json.dump(res, open(cpath, "w"))
+        else:
+            vlib.log("sched: re-using the validation of identical binary/specs/seed/tier (%s)" % key)
+    classify = vlib.classify_for(ctx.prop)
+    for k, v in res["cov"].items():
+        if isinstance(v, int) and isinstance(ctx.cov.get(k), int):
+            ctx.cov[k] += v
+        elif isinstance(v, list) and isinstance(ctx.cov.get(k), list):
+            ctx.cov[k] += v
+        else:
+            ctx.cov[k] = v
+    for v in res["violations"]:
+        kind = classify(v["reason"], "VerdictOK", v.get("line", {}), [])
+        if kind == "violation":
+            ctx.violations.append(v)
+        elif kind.startswith("known:"):
+            ctx.known_hits.append(kind[6:])
+        elif kind == "other":
+            ctx.cov["other_property_verdicts"] = ctx.cov.get("other_property_verdicts", 0) + 1
+            vlib.log("  NOTE other-property verdict %s (not decided by the %s check)" % (v["reason"], ctx.prop))
 
 
 def run(ctx):
